@@ -169,7 +169,11 @@ func (t *Collection) ExistAny(key interface{}) bool {
 // Exist returns true if the key exists in the collection
 func (t *Collection) Exist(key []byte) bool {
 	val, _ := t.GetItem(key, false)
-	return val != nil
+	if val != nil {
+		t.store.ItemDecRef(t, val) // Nothing is handed to the caller.
+		return true
+	}
+	return false
 }
 
 // SetItem in a collection
